@@ -268,6 +268,241 @@ fn proof_mutants(w: &Worlds, home: &InFlight) -> Vec<Mutant> {
     out
 }
 
+/// Selections that differ from `nums` in one place (all with a valid proof later): one number
+/// dropped, added, replaced by any other number of `lo..last`, duplicated.
+fn reselections(nums: &[u64], lo: u64, last: u64) -> Vec<(&'static str, Vec<u64>)> {
+    let mut out = vec![];
+    for i in 0..nums.len() {
+        let mut sel = nums.to_vec();
+        sel.remove(i);
+        out.push(("drop-one", sel));
+        let mut sel = nums.to_vec();
+        sel.insert(i, nums[i]);
+        out.push(("duplicate-one", sel));
+        for x in lo..last {
+            if nums.contains(&x) {
+                continue;
+            }
+            let mut sel = nums.to_vec();
+            sel.remove(i);
+            sel.push(x);
+            sel.sort_unstable();
+            out.push(("replace-one", sel));
+        }
+    }
+    for x in lo..last {
+        if nums.contains(&x) {
+            continue;
+        }
+        let mut sel = nums.to_vec();
+        sel.push(x);
+        sel.sort_unstable();
+        out.push(("add-one", sel));
+    }
+    out
+}
+
+/// Request grid: the shape check of a proof depends on the request (start, boundary, sampled
+/// difficulties); the requests the client builds itself almost never put the boundary or a
+/// sample exactly on a block's total difficulty. Here the outstanding request of a real peer
+/// state is replaced by every request of a small grid (boundary = a block's total difficulty
+/// -1 / +0 / +1 for every block between start and last; 0..2 sampled difficulties on / just below
+/// block totals), the honest answer (the unique selection of the honest-server model, with its
+/// MMR proof) must be accepted, and every selection that differs from it in one header (with a
+/// valid MMR proof for exactly that selection) must leave the trusted view unchanged.
+fn request_grid(env: &Env, report: &mut Report, constant_difficulty: bool, last_n: u64, slice: (usize, usize), thorough: bool) {
+    use crate::protocols::light_client::{LastState, ProveRequest};
+    use crate::verif::client::ClientCfg;
+    use crate::verif::driver::World;
+    use crate::verif::world::{Chain, EpochPlan, View};
+    use ckb_network::PeerIndex;
+    use ckb_types::{packed, U256};
+    let plan = if constant_difficulty { EpochPlan::constant(1000, crate::verif::world::compact_of(16)) } else { crate::verif::scen::wavy_plan(4) };
+    let mut chain = Chain::new(std::sync::Arc::clone(&env.consensus), plan);
+    crate::verif::scen::extend_chain(&mut chain, &env.scripts, 14, &[]);
+    let cfg = ClientCfg { last_n, max_outbound: 1, cp_interval: 4, ..Default::default() };
+    let name = format!("{}/lastN{}", if constant_difficulty { "constant" } else { "wavy" }, last_n);
+    let mut case_no = 0usize;
+    let mut sim_opt: Option<Sim> = None;
+    for start in [0u64, 4] {
+        let lasts: Vec<u64> = [start + last_n + 1, start + last_n + 2, start + last_n + 4, 13].into_iter().filter(|l| *l <= 13).collect::<std::collections::BTreeSet<_>>().into_iter().collect();
+        for last in lasts {
+            // requests
+            let td = |n: u64| chain.tds[n as usize].clone();
+            let one = U256::one();
+            let mut boundaries: Vec<U256> = vec![];
+            for b in (start + 1)..last {
+                for v in [td(b) - &one, td(b), td(b) + &one] {
+                    if v >= td(start) && v <= td(last) && !boundaries.contains(&v) {
+                        boundaries.push(v);
+                    }
+                }
+            }
+            let mut sample_sets: Vec<Vec<U256>> = vec![vec![]];
+            let cands: Vec<U256> = ((start + 1)..last).flat_map(|b| vec![td(b) - &one, td(b)]).collect();
+            for (i, c) in cands.iter().enumerate() {
+                sample_sets.push(vec![c.clone()]);
+                if thorough || i % 3 == 0 {
+                    for c2 in cands.iter().skip(i + 1).step_by(if thorough { 1 } else { 3 }) {
+                        sample_sets.push(vec![c.clone(), c2.clone()]);
+                    }
+                }
+            }
+            for boundary in &boundaries {
+                for samples in &sample_sets {
+                    let samples: Vec<U256> = samples.iter().filter(|d| *d > &td(start) && *d < boundary).cloned().collect();
+                    case_no += 1;
+                    if case_no % slice.1 != slice.0 {
+                        continue;
+                    }
+                    let content = packed::GetLastStateProof::new_builder()
+                        .last_hash(chain.blocks[last as usize].hash())
+                        .start_hash(chain.blocks[start as usize].hash())
+                        .start_number(start.pack())
+                        .last_n_blocks(last_n.pack())
+                        .difficulty_boundary(boundary.pack())
+                        .difficulties(samples.iter().map(|d| d.pack()).pack())
+                        .build();
+                    let view = View::new(&chain, last);
+                    let (_, reorg, sampled, last_ns) = match view.last_state_proof_numbers(&content) {
+                        Some(x) => x,
+                        None => continue,
+                    };
+                    let honest: Vec<u64> = reorg.into_iter().chain(sampled).chain(last_ns).collect();
+                    let label = format!("[{} start {} last {} boundary {:#x} samples {:?}]", name, start, last, boundary, samples.iter().map(|d| format!("{:#x}", d)).collect::<Vec<_>>());
+                    // (re)build the receiver state: peer proven at `start` (if > 0), last state `last`,
+                    // outstanding request := the grid request
+                    let mut build = |old: Option<Sim>| -> Option<Sim> {
+                        let mut world = World::new(vec![chain.clone()], cfg.cp_interval);
+                        world.add_peer(1, 0, if start > 0 { start } else { last });
+                        crate::verif::client::set_now(crate::verif::world::BASE_TS + 1_000_000);
+                        let mut sim = match old {
+                            Some(o) => Sim::recycle(o, cfg.clone(), world),
+                            None => crate::verif::scen::new_sim(env, cfg.clone(), world),
+                        };
+                        crate::verif_hooks::rng_reset(1);
+                        if start > 0 {
+                            if !crate::verif::scen::prove_peer(&mut sim, 1) {
+                                return None;
+                            }
+                            sim.queue.clear();
+                            sim.world.peer_mut(1).height = last;
+                            let m = sim.world.view(1).send_last_state();
+                            sim.deliver_msg(crate::verif::driver::InFlight { proto: Proto::LightClient, peer: 1, data: m.as_bytes(), note: "SendLastState".into() });
+                        } else {
+                            sim.connect(1);
+                            // only the SendLastState answer is delivered
+                            if let Some(i) = sim.queue.iter().position(|m| kind_of(m) == "SendLastState") {
+                                sim.deliver(i);
+                            }
+                        }
+                        sim.queue.clear();
+                        let last_vh: ckb_types::utilities::merkle_mountain_range::VerifiableHeader = chain.vh(last).into();
+                        let req = ProveRequest::new(LastState::new(last_vh), content.clone());
+                        if sim.c().peers.update_prove_request(PeerIndex::new(1), req).is_err() {
+                            return None;
+                        }
+                        let _ = sim.c().out.take_sent();
+                        Some(sim)
+                    };
+                    let mut cur = build(sim_opt.take());
+                    if cur.is_none() {
+                        report.count("request_grid/state_not_reached", 1);
+                        continue;
+                    }
+                    report.count("request_grid/requests", 1);
+                    let mut before = trusted_view(cur.as_ref().unwrap());
+                    // mutants first (they must not change anything, so the state is reused)
+                    let lo = start.saturating_sub(last_n + 1).max(if start == 0 { 0 } else { 1 });
+                    for (class, sel) in reselections(&honest, lo, last) {
+                        if sel == honest || sel.is_empty() {
+                            continue;
+                        }
+                        let mut uniq = sel.clone();
+                        uniq.sort_unstable();
+                        uniq.dedup();
+                        let hs: Vec<packed::VerifiableHeader> = sel.iter().map(|n| chain.vh(*n)).collect();
+                        let content_msg = packed::SendLastStateProof::new_builder()
+                            .last_header(chain.vh(last))
+                            .proof(chain.proof(last, &uniq))
+                            .headers(hs.pack())
+                            .build();
+                        let msg = packed::LightClientMessage::new_builder().set(content_msg).build();
+                        report.count("request_grid/mutants", 1);
+                        let r = {
+                            let sim = cur.as_mut().unwrap();
+                            let r = crate::verif::props::panics::catch(|| sim.cm().recv_lc(PeerIndex::new(1), msg.as_bytes()));
+                            let _ = sim.c().out.take_sent();
+                            let _ = sim.c().out.take_bans();
+                            r
+                        };
+                        let mut rebuilt = false;
+                        match r {
+                            Err(p) => {
+                                if !p.msg.contains("long fork detected") {
+                                    report.violation(format!("abort/{}", p.site()), format!("{} {} {:?}", p.describe(), label, sel), json!({"grid": label, "selection": sel}));
+                                }
+                                cur = build(None);
+                                rebuilt = true;
+                            }
+                            Ok(()) => {
+                                let after = trusted_view(cur.as_ref().unwrap());
+                                if after != before {
+                                    report.violation(
+                                        format!("request-grid/mutant-changed-trusted-state/reselect:{}(valid-proof)", class),
+                                        format!("{} honest selection {:?}, accepted selection {:?} (valid MMR proof)", label, honest, sel),
+                                        json!({"grid": label, "honest": honest, "selection": sel, "view_before": before, "view_after": after}),
+                                    );
+                                    cur = build(cur.take());
+                                    rebuilt = true;
+                                }
+                            }
+                        }
+                        if rebuilt {
+                            match cur.as_ref() {
+                                Some(s) => before = trusted_view(s),
+                                None => break,
+                            }
+                        }
+                    }
+                    let mut sim = match cur {
+                        Some(s) => s,
+                        None => continue,
+                    };
+                    // the honest answer itself
+                    let msg = view.build_last_state_proof(last, &honest);
+                    let r = crate::verif::props::panics::catch(|| sim.cm().recv_lc(PeerIndex::new(1), msg.as_bytes()));
+                    let bans = sim.c().out.take_bans();
+                    let _ = sim.c().out.take_sent();
+                    match r {
+                        Err(p) => {
+                            if !p.msg.contains("long fork detected") {
+                                report.violation(format!("abort/{}", p.site()), format!("{} {} honest", p.describe(), label), json!({"grid": label}));
+                            }
+                            sim_opt = None;
+                            continue;
+                        }
+                        Ok(()) => {
+                            if trusted_view(&sim) != before {
+                                report.count("request_grid/honest_accepted", 1);
+                            } else if !bans.is_empty() {
+                                // an honest answer to a request the client would not build itself
+                                // (C05 judges the requests it does build)
+                                report.count("request_grid/honest_rejected", 1);
+                                let why = bans[0].1.split(':').next().unwrap_or("").to_owned();
+                                report.count(&format!("request_grid/honest_rejected/{}", why), 1);
+                            } else {
+                                report.count("request_grid/honest_recheck_round", 1);
+                            }
+                        }
+                    }
+                    sim_opt = Some(sim);
+                }
+            }
+        }
+    }
+}
+
 const PROOF_SCNS: [Scn; 5] = [
     Scn::FirstProof,
     Scn::NewProofSampled,
@@ -358,8 +593,19 @@ pub(crate) fn run(opts: &Opts, report: &mut Report) {
     let mut scns: Vec<Scn> = c10::ALL_SCN.to_vec();
     scns.push(Scn::UnminedProof);
     const CHUNKS: usize = 4;
-    let items = grid.len() * scns.len() * CHUNKS;
+    let sweep_items = grid.len() * scns.len() * CHUNKS;
+    // request grid: (constant / wavy difficulty) x last-N x 8 slices
+    let grid_cfgs: Vec<(bool, u64)> = if thorough { vec![(true, 2), (false, 2), (true, 3), (false, 3), (true, 1)] } else { vec![(true, 2), (false, 2)] };
+    const GRID_SLICES: usize = 8;
+    let items = sweep_items + grid_cfgs.len() * GRID_SLICES;
     let worker = crate::verif::props::shard::run("C01", opts, report, items, 16, |item, report| {
+        if item >= sweep_items {
+            let g = item - sweep_items;
+            let (constant, last_n) = grid_cfgs[g / GRID_SLICES];
+            let env = Env::dummy();
+            request_grid(&env, report, constant, last_n, (g % GRID_SLICES, GRID_SLICES), thorough);
+            return;
+        }
         let chunk = item % CHUNKS;
         let item = item / CHUNKS;
         let (spec, params) = &grid[item / scns.len()];
